@@ -10,17 +10,36 @@ BASELINE_OFF = (
 )
 
 # property -> (category, technique, text, note, design_ref)
+REF = "Trusted: vp.nmtran_ref (my executable reading of the NONMEM documentation; NONMEM itself is not installed), vp.ir_eval, sympy/mpmath; 50-digit arithmetic with a conditioning probe decides which sample points are compared."
+
 CHECKS = {
-    "C10": (
-        "exploration",
-        "reference-interpreter oracle over generated straight-line programs (runtime monitoring of the real Statements methods)",
-        "Every query (full_expression, dependencies, remove_symbol_definitions, reassign, subs, find_assignment, "
-        "remove_unused_parameters_and_rvs) is run on thousands of generated programs and judged by a sequential-store "
-        "interpreter and an exact reaching-definition closure; held on the programs explored, not a proof.",
-        "Trusted: sympy tree conversion of expressions, vp.ir_eval numeric evaluator, the 60-line reference closure.",
-        "DESIGN.md §3 C10",
-    ),
+    "C01": ("exploration",
+            "differential runtime oracle: independent NM-TRAN reference interpreter vs the Model returned by pharmpy's reader, on grammar-generated control streams",
+            "Every generated control stream (all ADVAN/TRANS, $DES, $PRED, parameter-record layouts) is read by the real reader and its parameters, random-effect structure, $PK variables, vector field, dose events, F and $ERROR variables are compared at sampled environments with an independent interpreter of the text. Held on the programs explored; listed known findings are re-observed by delta check.",
+            REF, "DESIGN.md §3 C01"),
+    "C02": ("exploration",
+            "differential runtime oracle after every step of random transformation histories: generated code interpreted by the NM-TRAN reference vs in-memory model, plus write/read-back",
+            "After each of thousands of transformation steps the generated control stream is interpreted independently and compared with the in-memory model; the model is written, re-read and compared again, datasets cell by cell. Violations are attributed to listed mechanisms only by signature + delta check.",
+            REF + " THETA/ETA/EPS aligned by position; compartments by name.", "DESIGN.md §3 C02"),
+    "C10": ("exploration",
+            "reference-interpreter oracle over generated straight-line programs (runtime monitoring of the real Statements methods)",
+            "Every query (full_expression, dependencies, remove_symbol_definitions, reassign, subs, find_assignment, remove_unused_parameters_and_rvs) is run on thousands of generated programs and judged by a sequential-store interpreter and an exact reaching-definition closure; held on the programs explored, not a proof.",
+            "Trusted: sympy tree conversion of expressions, vp.ir_eval numeric evaluator, the 60-line reference closure.", "DESIGN.md §3 C10"),
+    "C11": ("exploration",
+            "reference-model monitor (name -> level/mean, pair -> covariance) over random join/unjoin/index/subs/+ sequences; numpy eigen-decomposition oracle for matrix facts",
+            "Random operation sequences on the real RandomVariables objects are shadowed by a trivially correct reference; matrix repair, sd/corr and ucp conversions are checked against numpy on generated matrices.",
+            "Trusted: numpy.linalg.eigh, the reference update rules in vp/gen/rvs.py.", "DESIGN.md §3 C11"),
+    "C17": ("exploration",
+            "event-log monitor with forced schedules: every task function is wrapped, start/end/args recorded, gates opened by a seeded controller; offline check of exactly-once, ordering, argument order and result vs a sequential reference",
+            "Random builder-op sequences produce DAGs that are really executed through execute_workflow under forced, distinct completion orders; the recorded history is checked offline and the graph after every builder operation is compared with a shadow.",
+            "Trusted: the harness's shadow of builder operations (entry order = order of builder calls); threading.Event gating; dask threaded scheduler as the system under test.", "DESIGN.md §3 C17"),
+    "C18": ("exploration",
+            "independent MFL reader expanding spaces to explicit option sets; algebraic laws and enumeration counts monitored on the real ModelFeatures and workflow builders",
+            "Grammar-generated MFL strings and pairs are parsed by the real parser and by an independent reader; parse/print round trip, +, -, ==, contain_subset, least_number_of_transformations and the exhaustive / stepwise task graphs are compared with set operations and an independent path enumerator; partitions/subsets exhaustive for n<=6.",
+            "Trusted: the independent reader in vp/gen/mfl.py written from docs/mfl.rst and the grammar comments; rules of docs/modelsearch.rst.", "DESIGN.md §3 C18"),
 }
+
+READY = ["C01", "C10", "C17", "C18"]
 
 NOT_BUILT = "check not built yet in this session (design in DESIGN.md); not claimed"
 
@@ -31,7 +50,7 @@ def main():
     na = []
     for p in props:
         pid = p["id"]
-        if pid in CHECKS:
+        if pid in CHECKS and pid in READY:
             cat, tech, text, note, ref = CHECKS[pid]
             checks.append(
                 {
@@ -62,6 +81,8 @@ def main():
         "engines": [
             {"name": "farm", "path": "vp/farm.py", "serves_properties": sorted(CHECKS),
              "kind_free_text": "fork-based worker farm running generated cases against the real pharmpy code under monitors; merges monitor counters into evidence"},
+            {"name": "denote", "path": "vp/denote.py", "serves_properties": [p for p in ("C01", "C02", "C07", "C08", "C09") if p in READY],
+             "kind_free_text": "semantic oracle: vp.nmtran_ref (independent NM-TRAN interpreter) and vp.ir_eval (independent evaluator of the model IR) compared at sampled environments in 50-digit arithmetic"},
         ],
         "checks": checks,
         "not_applicable": na,
